@@ -31,12 +31,20 @@ package joiner
 //@   loop 1 invariant 0 <= bufferOffset && 0 <= bytesToRead && bufferOffset + bytesToRead <= len(b) && cur <= off && 0 <= cursor && cursor % j.refLength == 0
 //@   loop 1 invariant deref(bytesRead) >= n0
 
+//@ # what the errgroup collecting the chunk fetches last answered (ghost)
+//@ ghost waited int
+//@ ghost waits int
+//@ extern func (*golang.org/x/sync/errgroup.Group).Wait
+//@   assigns ghost waited, ghost waits
+//@   ensures waited == ref(result) && waits == old(waits) + 1
+
 //@ func (*joiner).ReadAt
 //@   property C07
 //@   note a negative offset is outside io.ReaderAt's contract (the code would slice with it); offsets are taken >= 0
 //@   requires 0 <= j.span && j.refLength > 0 && 0 <= off && (len(j.rootData) % j.refLength == 0 || j.span <= len(j.rootData))
 //@   ensures eof-at-or-past-end: off >= j.span ==> read == 0 && err != nil
 //@   ensures never-more-than-len: read <= len(buffer) && 0 <= read
+//@   ensures no-eof-before-the-end: off < j.span && err != nil ==> waits == old(waits) + 1 && ref(err) == waited && read == 0
 //@   ensures never-more-than-remaining: off < j.span && err == nil ==> read <= j.span - off
 //@   callassert joiner.readAtOffset within-the-buffer: $bufferOffset == 0 && 0 <= $bytesToRead && $bytesToRead <= len(buffer) && $bytesToRead <= j.span - off
 
